@@ -102,7 +102,8 @@ func (r TokenEndpointResponse) TokenInfo() (*TokenInfo, error) {
 	if r.ExpiresIn != 0 {
 		// values beyond what a duration can express would wrap around (a huge negative
 		// value would become a huge positive one)
-		const maxSeconds = int64(math.MaxInt64 / time.Second)
+		// (half of the range, as the leeway is subtracted from the time left later on)
+		const maxSeconds = int64(math.MaxInt64/time.Second) / 2 //nolint:mnd
 
 		expiry = time.Now().Add(time.Duration(min(max(r.ExpiresIn, -maxSeconds), maxSeconds)) * time.Second)
 	}
